@@ -1,20 +1,20 @@
 #!/bin/bash
-# tools/verify_mutant.sh <outdir> <k>  — independent confirmation of a sub-agent's change:
-# applies patch<k>.diff to a scratch copy of /repo; requires build + vet + unedited test suite green,
-# the demo failing with the change and passing without it. Prints a one-line verdict.
+# tools/verify_mutant.sh <seeded-dir>  — independent confirmation of a seeded change:
+# applies <dir>/patch.diff to a scratch copy of /repo; requires build + vet + the unedited test suite green,
+# the demonstration <dir>/demo_test.go failing with the change and passing without it. One-line verdict.
 set -u
-OUT="$1"; K="$2"
+D="$1"
 export GOFLAGS=-mod=mod GOPROXY=off GOSUMDB=off GOTOOLCHAIN=local
 W="$(mktemp -d /tmp/vm.XXXXXX)"; trap 'rm -rf "$W"' EXIT
 rsync -a --exclude .git /repo/ "$W/clean"/ && rsync -a --exclude .git /repo/ "$W/mut"/
-(cd "$W/mut" && git init -q . && git apply --whitespace=nowarn "$OUT/patch$K.diff") || { echo "$OUT $K: PATCH-DOES-NOT-APPLY"; exit 1; }
-(cd "$W/mut" && go build ./... && go vet ./... ) > "$W/b.log" 2>&1 || { echo "$OUT $K: BUILD-OR-VET-FAILS"; tail -5 "$W/b.log"; exit 1; }
-(cd "$W/mut" && go test -count=1 ./... ) > "$W/t.log" 2>&1 || { echo "$OUT $K: SUITE-FAILS-WITH-CHANGE"; grep -E "^(---|FAIL)" "$W/t.log" | head -5; exit 1; }
+(cd "$W/mut" && git init -q . && git apply --whitespace=nowarn "$D/patch.diff") || { echo "PATCH-DOES-NOT-APPLY"; exit 1; }
+(cd "$W/mut" && go build ./... && go vet ./... ) > "$W/b.log" 2>&1 || { echo "BUILD-OR-VET-FAILS"; tail -5 "$W/b.log"; exit 1; }
+(cd "$W/mut" && go test -count=1 ./... ) > "$W/t.log" 2>&1 || { echo "SUITE-FAILS-WITH-CHANGE"; grep -E "^(---|FAIL)" "$W/t.log" | head -5; exit 1; }
 RACE=""
-grep -qi '"demo_cmd".*-race' "$OUT/meta$K.json" && RACE="-race"
-cp "$OUT/demo${K}_test.go" "$W/mut/zz_demo_test.go"; cp "$OUT/demo${K}_test.go" "$W/clean/zz_demo_test.go"
-TESTS=$(grep -o '^func Test[A-Za-z0-9_]*' "$OUT/demo${K}_test.go" | sed 's/func //' | paste -sd'|')
-(cd "$W/mut" && timeout 600 go test $RACE -count=1 -run "^($TESTS)\$" . ) > "$W/dm.log" 2>&1; rm=$?
-(cd "$W/clean" && timeout 600 go test $RACE -count=1 -run "^($TESTS)\$" . ) > "$W/dc.log" 2>&1; rc=$?
-if [ $rm -ne 0 ] && [ $rc -eq 0 ]; then echo "$OUT $K: CONFIRMED (demo fails with change, passes without; suite green) race=$RACE"; exit 0; fi
-echo "$OUT $K: NOT-CONFIRMED demo-with-change-exit=$rm demo-clean-exit=$rc"; tail -5 "$W/dm.log"; tail -5 "$W/dc.log"; exit 1
+grep -qi '"demo_cmd".*-race' "$D/agent_meta.json" 2>/dev/null && RACE="-race"
+cp "$D/demo_test.go" "$W/mut/zz_demo_test.go"; cp "$D/demo_test.go" "$W/clean/zz_demo_test.go"
+TESTS=$(grep -o '^func Test[A-Za-z0-9_]*' "$D/demo_test.go" | sed 's/func //' | paste -sd'|')
+(cd "$W/mut" && timeout 900 go test $RACE -count=1 -run "^($TESTS)\$" . ) > "$W/dm.log" 2>&1; rm=$?
+(cd "$W/clean" && timeout 900 go test $RACE -count=1 -run "^($TESTS)\$" . ) > "$W/dc.log" 2>&1; rc=$?
+if [ $rm -ne 0 ] && [ $rc -eq 0 ]; then echo "CONFIRMED: build+vet clean, unedited suite passes with the change, demo fails with it and passes without (go test $RACE -run '$TESTS')"; exit 0; fi
+echo "NOT-CONFIRMED demo-with-change-exit=$rm demo-clean-exit=$rc"; tail -5 "$W/dm.log"; tail -5 "$W/dc.log"; exit 1
